@@ -3,7 +3,7 @@ deprecated *_old streaming helpers of exetera/core/operations.py) vs coq/Model/S
 import itertools, functools
 
 PROP, NUM = 'C19', 19
-PROPS_FILES = ['Props/C19.v', 'Props/C19_typed.v', 'Props/C19_flags.v']
+PROPS_FILES = ['Props/C19.v', 'Props/C19_typed.v', 'Props/C19_flags.v', 'Props/C19_world.v']
 MODES = ['jit', 'nojit']
 MODES_THOROUGH = ['jit', 'nojit', 'bounds']
 LEVEL = 'proof'
@@ -233,6 +233,77 @@ def _nfield(xs, dt='int32', h5=False):
     return f
 
 
+# ---- named HDF5 columns of a history (case['at'] = {role: [frame, name, mode]}): frame 'd0/a' = dataframe 'a' of dataset
+# 'd0' of this case; the column is created on first mention; a later mention of the same path with another content
+# overwrites it in place (mode 0: f.data[:] = a at equal length and dtype, else clear + write; mode 1: clear + write) or
+# replaces it by a new field of the same name (mode 2, and whenever the dtype changes).  Model/SessionWorld.v.
+_W = {'ds': {}, 'df': {}, 'cols': {}, 'n': 0, 'gen': 0}
+
+
+def _world_reset():
+    """a new history: new dataframes (the two HDF5 files of a worker are kept for 100 histories: closing one costs 15 ms)"""
+    _W['df'].clear(); _W['cols'].clear()
+    _W['gen'] += 1
+    if _W['gen'] % 100 == 0:
+        for nm in list(_W['ds'].values()):
+            try:
+                _S.close_dataset(nm)
+            except Exception:       # noqa
+                pass
+        _W['ds'].clear()
+
+
+def _world_frame(frame):
+    import os, io
+    if frame not in _W['df']:
+        dname, fname = frame.split('/')
+        if dname not in _W['ds'] or _W['ds'][dname] not in _S.datasets:
+            _W['n'] += 1
+            nm = 'w%d_%d_%s' % (os.getpid(), _W['n'], dname)
+            _S.open_dataset(io.BytesIO(), 'w', nm)
+            _W['ds'][dname] = nm
+        _W['df'][frame] = _S.get_dataset(_W['ds'][dname]).create_dataframe('%s_%d' % (fname, _W['gen']))
+    return _W['df'][frame]
+
+
+def _world_col(at, arr, dt):
+    frame, name = at[0], at[1]
+    mode = at[2] if len(at) > 2 else 0
+    df = _world_frame(frame)
+    # the names collide WITHIN a history as the case says; they are unique ACROSS the histories a worker runs on its one
+    # Session, so that a history (and every shrunk form of it) behaves in a used worker as it does in a fresh process
+    name = '%s_%d' % (name, _W['gen'])
+    old = _W['cols'].get((frame, name))
+    content = (dt, arr.tolist())
+    if old is not None:
+        if old == content:
+            return df[name]
+        f = df[name]
+        if mode == 2 or old[0] != dt:
+            del df[name]
+        elif mode == 0 and len(old[1]) == len(arr):
+            f.data[:] = arr
+            _W['cols'][(frame, name)] = content
+            return df[name]
+        else:
+            f.data.clear()
+            f.data.write(arr)
+            _W['cols'][(frame, name)] = content
+            return df[name]
+    f = df.create_fixed_string(name, int(dt[1:])) if _is_s(dt) else df.create_numeric(name, dt)
+    f.data.write(arr)
+    _W['cols'][(frame, name)] = content
+    return f
+
+
+def _kfield(case, role, arr, dt, h5=False):
+    """a key column as a field: a named HDF5 column of the history's world, else an anonymous field"""
+    at = (case.get('at') or {}).get(role)
+    if at is not None:
+        return _world_col(at, arr, dt)
+    return _nfield(arr, dt, h5)
+
+
 def _ifield(strs, h5=False):
     if h5:
         df = _h5_frame()
@@ -292,11 +363,21 @@ class _patched:
         _ops.DEFAULT_CHUNKSIZE = self.dcs
 
 
-def _payload(kind, col, form, h5=False, dt='int32'):
-    """kind 'n' numeric / 'i' indexed string;  form 'a' ndarray / 'f' field"""
+def _payload(kind, col, form, h5=False, dt='int32', at=None):
+    """kind 'n' numeric / 'i' indexed string;  form 'a' ndarray / 'f' field;  at: a named HDF5 column of the history's world"""
     if kind == 'i':
         return _ifield(col, h5)
+    if at is not None and form != 'a':
+        return _world_col(at, _tarr(col, dt), dt)
     return _tarr(col, dt) if form == 'a' else _nfield(col, dt, h5)
+
+
+def _pat(case, role, k=None):
+    """where payload k of `role` lives (case['at'][role]: one place, or a list of places / None per payload)"""
+    a = (case.get('at') or {}).get(role)
+    if a is None or k is None:
+        return a
+    return a[k] if k < len(a) else None
 
 
 def _arg(x, grp):
@@ -367,8 +448,10 @@ def run(case):
     op = case['op']
     _REG.clear()
     if op == 'hist':
-        # several calls one after the other on the same Session; arguments named in 'reg' are shared between them
+        # several calls one after the other on the same Session; arguments named in 'reg' are shared between them,
+        # key columns placed by 'at' are named HDF5 columns of the datasets of this history
         out = []
+        _world_reset()
         for c in case['calls']:
             try:
                 r = _run1(c, np, ops, S)
@@ -378,11 +461,16 @@ def run(case):
                 r = {'exc': _exc_name(e)}
             out.append('EXC:' + r['exc'] if isinstance(r, dict) and 'exc' in r else r)
         _REG.clear()
+        _world_reset()
         return out
+    if case.get('at'):
+        _world_reset()
     try:
         return _run1(case, np, ops, S)
     finally:
         _REG.clear()
+        if case.get('at'):
+            _world_reset()
 
 
 def _run1(case, np, ops, S):
@@ -436,8 +524,8 @@ def _run(case, op, np, ops, S):
     if op == 'gi':
         Ta, kd = _keys(case, case['T'], 'R')
         Fa, fd = _keys(case, case['F'], 'L')
-        T = Ta if case['form'] == 'a' else _nfield(Ta, kd)
-        F = Fa if case['form'] == 'a' else _nfield(Fa, fd)
+        T = Ta if case['form'] == 'a' else _kfield(case, 'T', Ta, kd, bool(case.get('h5')))
+        F = Fa if case['form'] == 'a' else _kfield(case, 'F', Fa, fd, bool(case.get('h5')))
         if case['dest'] == 'n':
             return [int(x) for x in S.get_index(T, F)]
         if case['dest'] == 'a':
@@ -445,23 +533,24 @@ def _run(case, op, np, ops, S):
             r = S.get_index(T, F, d)
             assert r is None
             return [int(x) for x in d]
-        d = _nfield(None, 'int64')
+        d = _nfield(None, 'int64', bool(case.get('h5')))
         r = S.get_index(T, F, d)
         assert r is None
         return [int(x) for x in d.data[:]]
     if op == 'join':
         pk = np.zeros(case['n'], dtype=np.int32)
-        fk = _arr(case['fk'], 'int64') if case['form'] == 'a' else _nfield(case['fk'], 'int64')
+        jh5 = bool(case.get('h5'))
+        fk = _arr(case['fk'], 'int64') if case['form'] == 'a' else _kfield(case, 'fk', _arr(case['fk'], 'int64'), 'int64', jh5)
         vdt = case.get('vdt', 'int32')
         col = _tcol if case.get('typed') else _col
-        vals = _tarr(case['vals'], vdt) if case['form'] == 'a' else _nfield(case['vals'], vdt)
+        vals = _payload('n', case['vals'], case['form'], jh5, vdt, _pat(case, 'vals'))
         kw = {}
         if case.get('sp'):
             # the caller supplies the spans of the foreign-key indices (rarely used argument)
             xs = case['fk']
             kw['fkey_index_spans'] = np.asarray([k for k in range(len(xs)) if k == 0 or xs[k] != xs[k - 1]] + [len(xs)], dtype=np.int64)
         if case['writer']:
-            w = _nfield(None, vdt)
+            w = _nfield(None, vdt, bool(case.get('h5')))
             r = S.join(pk, fk, vals, writer=w, **kw)
             assert r is None
             return col(w)
@@ -489,11 +578,11 @@ def _run_oml(case, np, ops, S):
     def key(role, xs):
         def make():
             a, kd = _keys(case, xs, role)
-            return a if fa == 'a' else _nfield(a, kd, h5)
+            return a if fa == 'a' else _kfield(case, role, a, kd, h5)
         return _reg(case, role, 0, make)
     L = key('L', case['L'])
     R = key('R', case['R'])
-    srcs = tuple(_reg(case, 'srcs', k, (lambda k=k: _payload('n', case['srcs'][k], fa, h5, sdt[k]))) for k in range(n))
+    srcs = tuple(_reg(case, 'srcs', k, (lambda k=k: _payload('n', case['srcs'][k], fa, h5, sdt[k], _pat(case, 'srcs', k)))) for k in range(n))
     sinks = None
     if form == 'as':
         sinks = tuple(_reg(case, 'sinks', k, (lambda k=k: _full(len(case['L']), case.get('fill', 0), kdt[k])))
@@ -533,13 +622,13 @@ def _run_omi(case, np, ops, S):
     La, kd = _keys(case, case['L'], 'L')
     Ra, rd = _keys(case, case['R'], 'R')
     h5 = bool(case.get('h5'))
-    L = La if fa == 'a' else _nfield(La, kd, h5)
-    R = Ra if fa == 'a' else _nfield(Ra, rd, h5)
+    L = La if fa == 'a' else _kfield(case, 'L', La, kd, h5)
+    R = Ra if fa == 'a' else _kfield(case, 'R', Ra, rd, h5)
     ldt = case.get('ldt') or ['int32'] * len(case['lsrcs'])
     rdt = case.get('rdt') or ['int32'] * len(case['rsrcs'])
     _cols_ = (lambda t: None if t is None else [_tcol(x) for x in t]) if case.get('typed') else _cols
-    ls = tuple(_payload('n', c, fa, h5, d) for c, d in zip(case['lsrcs'], ldt))
-    rs = tuple(_payload('n', c, fa, h5, d) for c, d in zip(case['rsrcs'], rdt))
+    ls = tuple(_payload('n', c, fa, h5, d, _pat(case, 'lsrcs', k)) for k, (c, d) in enumerate(zip(case['lsrcs'], ldt)))
+    rs = tuple(_payload('n', c, fa, h5, d, _pat(case, 'rsrcs', k)) for k, (c, d) in enumerate(zip(case['rsrcs'], rdt)))
     lsk = rsk = None
     if form == 'as':
         n = case['n']
@@ -568,15 +657,15 @@ def _run_merge(case, np, ops, S):
     La, kd = _keys(case, case['L'], 'L')
     Ra, rd = _keys(case, case['R'], 'R')
     h5 = bool(case.get('h5'))
-    L = La if form == 'a' else _nfield(La, kd, h5)
-    R = Ra if form == 'a' else _nfield(Ra, rd, h5)
+    L = La if form == 'a' else _kfield(case, 'L', La, kd, h5)
+    R = Ra if form == 'a' else _kfield(case, 'R', Ra, rd, h5)
     typed = bool(case.get('typed'))
 
     def pdt(p):
         return p[2] if len(p) > 2 else 'int32'
 
-    def pays(ps):
-        return tuple(_payload(p[0], p[1], form, h5, pdt(p)) for p in ps)
+    def pays(ps, role):
+        return tuple(_payload(p[0], p[1], form, h5, pdt(p), _pat(case, role, k)) for k, p in enumerate(ps))
 
     def writers(ps):
         if not case['wr']:
@@ -592,14 +681,14 @@ def _run_merge(case, np, ops, S):
         return None if t is None else [col(x) for x in t]
 
     if op == 'ml':
-        p = pays(case['rp']); w = writers(case['rp'])
+        p = pays(case['rp'], 'rp'); w = writers(case['rp'])
         ret = S.merge_left(L, R, right_fields=p, right_writers=w)
         return [cols(ret), cols(w)]
     if op == 'mr':
-        p = pays(case['lp']); w = writers(case['lp'])
+        p = pays(case['lp'], 'lp'); w = writers(case['lp'])
         ret = S.merge_right(L, R, left_fields=p, left_writers=w)
         return [cols(ret), cols(w)]
-    lp, rp = pays(case['lp']), pays(case['rp'])
+    lp, rp = pays(case['lp'], 'lp'), pays(case['rp'], 'rp')
     lw, rw = writers(case['lp']), writers(case['rp'])
     ret = S.merge_inner(L, R, left_fields=lp, left_writers=lw, right_fields=rp, right_writers=rw)
     return [[cols(ret[0]), cols(ret[1])], None if lw is None else [cols(lw), cols(rw)]]
@@ -648,6 +737,8 @@ def to_val(case):
     if op == 'kmvold':
         return [5, case['data'], case['map'], case['cs'], case['inv']]
     if op == 'hist':
+        if any(c.get('at') for c in case['calls']):
+            return [14, _world_steps(case['calls'])]
         return [13, [to_val(c) for c in case['calls']]]
     if op == 'oml' and case.get('typed'):
         n = len(case['L'])
@@ -682,6 +773,44 @@ def to_val(case):
     if op == 'join':
         return [10, case['n'], case['fk'], case['vals']]
     raise ValueError(op)
+
+
+KEYROLES = ('L', 'R', 'T', 'F', 'fk')
+
+
+def _argpos(c, role):
+    """position of the key column `role` in the wire form of call c"""
+    op = c['op']
+    if op == 'gi':
+        return {'T': 1, 'F': 2}[role]
+    if op == 'join':
+        return {'fk': 2}[role]
+    if op in ('ml', 'mr', 'mi'):
+        return {'L': 2, 'R': 3}[role]
+    if op == 'omi':
+        return {'L': 1, 'R': 2}[role]
+    if op == 'oml':
+        return {'L': 2, 'R': 3}[role] if c.get('typed') else {'L': 3, 'R': 4}[role]
+    raise ValueError(op)
+
+
+def _world_steps(calls):
+    """wire 14 (Model/SessionWorld.v): before each call the columns its handles point to are written (what run() does),
+    the call itself travels with HOLES at those argument positions: the model reads them from the world by full path"""
+    fid, nid, steps = {}, {}, []
+    for c in calls:
+        v = to_val(c)
+        refs = []
+        for role in sorted(r for r in (c.get('at') or {}) if r in KEYROLES):
+            at = c['at'][role]
+            f = fid.setdefault(at[0], len(fid))
+            n = nid.setdefault(at[1], len(nid))
+            pos = _argpos(c, role)
+            steps.append([0, f, n, list(v[pos])])
+            v[pos] = []
+            refs.append([pos, f, n])
+        steps.append([1, v, refs])
+    return steps
 
 
 def _opt(v):
@@ -976,6 +1105,7 @@ def features(case, model):
         if len(set(c['op'] for c in calls)) > 1: f.append('history:different-entry-points')
         lens = [len(c.get('L', c.get('T', c.get('fk', [])))) for c in calls]
         if any(a > b for a, b in zip(lens, lens[1:])): f.append('history:shorter-call-after-longer')
+        f.extend(_world_features(calls))
         for k, c in enumerate(calls):
             sub = model[k] if isinstance(model, list) and k < len(model) else model
             f.extend(x for x in features(c, sub) if x not in f)
@@ -1092,6 +1222,39 @@ def features(case, model):
         if len(case['data']) > cs: f.append('multi-chunk-data')
         if case['inv'] in case['map']: f.append('invalid-entries')
     return f
+
+
+def _world_features(calls):
+    """what the named HDF5 columns of a history do to each other (Model/SessionWorld.v)"""
+    f, seen = [], []            # seen: (frame, name, mode, dtype, content) of every column mention so far
+    for c in calls:
+        pl = [a for r, v in (c.get('at') or {}).items() if r not in KEYROLES for a in (v if isinstance(v[0], list) or v[0] is None else [v]) if a]
+        if pl and 'world:named-hdf5-payload-columns' not in f: f.append('world:named-hdf5-payload-columns')
+        for role in sorted(r for r in (c.get('at') or {}) if r in KEYROLES):
+            at = c['at'][role]
+            xs = c[role]
+            dt = 'int64' if role == 'fk' else (KMAPS[c['km']][0] if c.get('km') else c.get('kt', 'int32'))
+            for (fr, nm, dt0, xs0) in seen:
+                if nm != at[1]:
+                    continue
+                same_path = fr == at[0]
+                w = 'same-path' if same_path else ('same-name-other-dataset' if fr.split('/')[0] != at[0].split('/')[0]
+                                                    else 'same-name-other-dataframe')
+                if same_path and (xs0 != xs or dt0 != dt):
+                    mode = at[2] if len(at) > 2 else 0
+                    w += ('-replaced-by-same-named-field' if mode == 2 or dt0 != dt else
+                          '-overwritten-in-place' if mode == 0 and len(xs0) == len(xs) else '-cleared-and-rewritten')
+                f.append('world:' + w)
+                f.append('world:%s/%s-length/%s-content' % (w, 'same' if len(xs0) == len(xs) else 'other', 'same' if xs0 == xs else 'other'))
+                if dt0 != dt: f.append('world:dtype-changes-under-the-same-name')
+            seen.append((at[0], at[1], dt, xs))
+    if seen:
+        f.insert(0, 'world:named-hdf5-key-columns')
+        if len(calls) >= 3: f.append('world:3-or-more-calls')
+    out = []
+    for x in f:
+        if x not in out: out.append(x)
+    return out
 
 
 def nontrivial(case, model):
@@ -1333,7 +1496,7 @@ def _gen_all(tier, rng):
         yield {'op': 'omi', 'L': L, 'R': R, 'lu': 0, 'ru': 0, 'n': _n_inner(L, R), 'form': rng.choice(forms4),
                'lsrcs': [_src(len(L), 0)], 'rsrcs': [_src(len(R), 5)]}
     # ---- element types, key dtypes, histories of calls on one Session, aliased arguments, change-directed sizes
-    for g in (_gen_typed, _gen_hist, _gen_alias, _gen_flagforms, _gen_mixed_keys, _gen_hot, _gen_changed):
+    for g in (_gen_typed, _gen_hist, _gen_world, _gen_alias, _gen_flagforms, _gen_mixed_keys, _gen_hot, _gen_changed):
         for c in g(big, rng):
             yield c
 
@@ -1669,6 +1832,144 @@ def _gen_hist(big, rng):
             yield {'op': 'hist', 'calls': [c1, c2]}
             c2b = dict(c2, form='f', mapk='n', cs=None)
             yield {'op': 'hist', 'calls': [c1, c2b]}
+
+
+# ---- histories on NAMED HDF5 key columns: per-Session state that survives between calls can only be keyed by something
+# a call can see of its arguments - the column name (Field.name is the last path component only), the length, the dtype.
+# Template alphabet x where the second call's columns live (same name in another dataframe / another dataset; the same
+# path overwritten in place / cleared and rewritten / replaced by a same-named field; another name: control) x
+# {same, other length} x {same, other content}.
+def _wkeys(kind, n, v):
+    if n <= 0:
+        return []
+    if kind == 'perm':          # distinct keys in some row order; v = 1: the same keys, every one in another row
+        return list(range(n)) if v == 0 else [(j + 1) % n for j in range(n)]
+    if kind == 'strict':        # strictly increasing; v = 1: another key set of the same size
+        return list(range(n)) if v == 0 else [0] + list(range(2, n + 1))
+    if kind == 'sorted':        # non-decreasing with duplicates
+        return [j // 2 for j in range(n)] if v == 0 else [(j + 1) // 2 + (1 if j > 2 else 0) for j in range(n)]
+    if kind == 'any':           # foreign keys, some of them missing from the primary column
+        return [(2 * j) % (n + 1) for j in range(n)] if v == 0 else [(3 * j + 1) % (n + 2) for j in range(n)]
+    if kind == 'fk':            # row indices into a 4-row primary key, with spans
+        return [min(3, j // 2) for j in range(n)] if v == 0 else [3 - min(3, j // 2) for j in range(n)]
+    raise ValueError(kind)
+
+
+# name -> (primary role, its kind, secondary role, its kind, builder(P, Q, v, d, e))
+WT = {
+    'gi': ('T', 'perm', 'F', 'any', lambda P, Q, v, d, e: {'op': 'gi', 'T': P, 'F': Q, 'form': 'f', 'dest': 'naf'[v % 3], 'h5': 1}),
+    'join': ('fk', 'fk', None, None, lambda P, Q, v, d, e: {'op': 'join', 'typed': 1, 'n': 4, 'fk': P, 'vals': _tsrc(_nruns(P), d), 'vdt': d,
+                                                          'form': 'f', 'writer': v % 2, 'h5': 1}),
+    'ml': ('R', 'perm', 'L', 'any', lambda P, Q, v, d, e: {'op': 'ml', 'typed': 1, 'L': Q, 'R': P, 'form': 'f', 'wr': v % 2, 'h5': 1,
+                                                         'rp': [['n', _tsrc(len(P), d), d], ['i', _istr(len(P), 0)]]}),
+    'mr': ('L', 'perm', 'R', 'any', lambda P, Q, v, d, e: {'op': 'mr', 'typed': 1, 'L': P, 'R': Q, 'form': 'f', 'wr': v % 2, 'h5': 1,
+                                                         'lp': [['i', _istr(len(P), 1)], ['n', _tsrc(len(P), d, 2), d]]}),
+    'mi': ('R', 'perm', 'L', 'any', lambda P, Q, v, d, e: {'op': 'mi', 'typed': 1, 'L': Q, 'R': P, 'form': 'f', 'wr': v % 2, 'h5': 1,
+                                                         'lp': [['n', _tsrc(len(Q), e), e]], 'rp': [['n', _tsrc(len(P), d, 1), d]]}),
+    'oml-s': ('R', 'strict', 'L', 'sorted', lambda P, Q, v, d, e: _toml(Q, P, [d], 'fs', 'f', (3, None, 4, 3)[v % 4], h5=1, swap=v % 2)),
+    'oml-f': ('R', 'strict', 'L', 'sorted', lambda P, Q, v, d, e: _toml(Q, P, [d, e], 'f', 'n', None, h5=1, swap=v % 2)),
+    'oml-fs': ('R', 'strict', 'L', 'sorted', lambda P, Q, v, d, e: _toml(Q, P, [e], 'fs', 'n', None, h5=1)),
+    'omi': ('R', 'strict', 'L', 'sorted', lambda P, Q, v, d, e: {'op': 'omi', 'typed': 1, 'L': Q, 'R': P, 'lu': 0, 'ru': 0, 'n': _n_inner(Q, P),
+                                                               'form': ['fs', 'f'][v % 2], 'h5': 1, 'ldt': [d], 'rdt': [e],
+                                                               'lsrcs': [_tsrc(len(Q), d)], 'rsrcs': [_tsrc(len(P), e, 1)]}),
+}
+# payload roles of each template and the table (0: the primary key's, 1: the secondary key's) their columns belong to
+WPAY = {'gi': [], 'join': [('vals', 1)], 'ml': [('rp', 0)], 'mr': [('lp', 0)], 'mi': [('lp', 1), ('rp', 0)], 'oml': [('srcs', 0)],
+        'omi': [('lsrcs', 1), ('rsrcs', 0)]}
+WNAMES = list(WT)
+# where the columns of a LATER call live relative to the first call's ('d0/a':'id' and 'd0/c':'pid')
+WPLACE = {
+    'first': (['d0/a', 'id'], ['d0/c', 'pid']),
+    'other-frame': (['d0/b', 'id'], ['d0/e', 'pid']),
+    'other-dataset': (['d1/a', 'id'], ['d1/c', 'pid']),
+    'in-place': (['d0/a', 'id', 0], ['d0/c', 'pid', 0]),
+    'rewritten': (['d0/a', 'id', 1], ['d0/c', 'pid', 1]),
+    'replaced': (['d0/a', 'id', 2], ['d0/c', 'pid', 2]),
+    'other-name': (['d0/a', 'id2'], ['d0/c', 'pid2']),
+}
+WMODES = ['other-frame', 'other-dataset', 'in-place', 'rewritten', 'replaced', 'other-name']
+WKM = [None, 'i64', 'i64p53', 'S8']
+
+
+def _wcall(t, n, v, place, cnt, km=None, dc=None, po=0):
+    """template t on key columns of n rows, content variant v, living at `place`; dc selects the payload dtypes, po rotates
+    the payload contents (two calls with equal dc and different po: same names, lengths and dtypes, other values)"""
+    pr, pk, sr, sk, build = WT[t]
+    dc = cnt if dc is None else dc
+    d = DTYPES[(3 * dc) % len(DTYPES)]
+    e = DTYPES[(3 * dc + 7) % len(DTYPES)]
+    c = build(_wkeys(pk, n, v), _wkeys(sk, n + 1, v) if sr else None, cnt, d, e)
+    if po:
+        for role, dts in (('srcs', 'sdt'), ('lsrcs', 'ldt'), ('rsrcs', 'rdt')):
+            if role in c:
+                c[role] = [_tsrc(len(col), dt, po + 3 * k) for k, (col, dt) in enumerate(zip(c[role], c[dts]))]
+        for role in ('lp', 'rp'):
+            if role in c:
+                c[role] = [[p[0], _tsrc(len(p[1]), p[2], po + 3 * k), p[2]] if p[0] == 'n' else [p[0], _istr(len(p[1]), po + k)]
+                           for k, p in enumerate(c[role])]
+        if 'vals' in c:
+            c['vals'] = _tsrc(len(c['vals']), c['vdt'], po)
+    at = {pr: list(WPLACE[place][0])}
+    if sr:
+        at[sr] = list(WPLACE[place][1])
+    # numeric payload columns live next to their key column under the names val0, val1 ... (the names collide between
+    # the tables exactly as the key names do; the model receives their content with the call)
+    for role, slot in WPAY[t.split('-')[0]]:
+        fr, mode = WPLACE[place][slot][0], (WPLACE[place][slot][2:] or [0])[0]
+        suffix = '2' if place == 'other-name' else ''
+        if role == 'vals':
+            at[role] = [fr, 'val' + suffix, mode]
+        elif role in ('lp', 'rp'):
+            at[role] = [[fr, 'val%d%s' % (k, suffix), mode] if p[0] == 'n' else None for k, p in enumerate(c[role])]
+        else:
+            at[role] = [[fr, 'val%d%s' % (k, suffix), mode] for k in range(len(c[role]))]
+    c['at'] = at
+    if km is not None and t != 'join':
+        c['km'] = km
+    return c
+
+
+def _gen_world(big, rng):
+    from harness import hot
+    cnt = 0
+    combos = [(m, dl, v) for m in WMODES for dl in (0, 1) for v in (0, 1)]
+    for i, a in enumerate(WNAMES):
+        for j, b in enumerate(WNAMES):
+            full = big or a == b or 'gi' in (a, b)
+            for ci, (m, dl, v) in enumerate(combos):
+                cnt += 1
+                if not full and (ci + 5 * (i * len(WNAMES) + j)) % 4:
+                    continue
+                n = 4 + cnt % 2
+                km = WKM[cnt % len(WKM)]
+                km2 = WKM[(cnt + 1) % len(WKM)] if cnt % 5 == 0 else km          # the dtype under the name changes
+                dc2 = cnt + 1 if cnt % 4 == 3 else cnt                             # payload dtypes: mostly the same in both calls
+                yield {'op': 'hist', 'calls': [_wcall(a, n, 0, 'first', cnt, km),
+                                               _wcall(b, n + dl, v, m, cnt + 1, km2, dc=dc2, po=1 if (v or cnt % 2) else 0)]}
+    # the first call again after a same-named column was used / after its own column was overwritten or replaced
+    for _ in range(1500 if big else 200):
+        cnt += 1
+        a, b = rng.choice(WNAMES), rng.choice(WNAMES)
+        n = rng.randint(2, 7)
+        km = rng.choice(WKM)
+        m = rng.choice(WMODES)
+        c1 = _wcall(a, n, 0, 'first', cnt, km)
+        c2 = _wcall(b, n + rng.choice([0, 0, 1]), rng.randint(0, 1), m, cnt + 1, km, dc=cnt, po=rng.randint(0, 2))
+        back = rng.choice(['in-place', 'rewritten', 'replaced'])
+        c3 = _wcall(a, n, rng.choice([0, 0, 1]), back, cnt, km, po=rng.choice([0, 0, 3]))
+        calls = [c1, c2, c3]
+        if rng.random() < 0.3:
+            calls.append(_wcall(rng.choice(WNAMES), n, 1, rng.choice(WMODES), cnt + 2, km, dc=cnt, po=4))
+        yield {'op': 'hist', 'calls': calls}
+    # change-directed: column lengths around every new small literal of the tree under test
+    for K in hot.hot_sizes():
+        if K > 400:
+            continue
+        for n in sorted(set(max(1, x) for x in (K - 1, K, K + 1))):
+            for t in WNAMES:
+                for m in ('other-frame', 'in-place', 'replaced'):
+                    cnt += 1
+                    yield {'op': 'hist', 'calls': [_wcall(t, n, 0, 'first', cnt), _wcall(t, n, 1, m, cnt + 1, dc=cnt, po=1)]}
 
 
 def _gen_alias(big, rng):
@@ -2184,7 +2485,16 @@ RULE = ('exhaustive over order-types: every pair of non-decreasing key sequences
         'the other side\'s range that collide with a key there under a cast (c + s*2^w, c in {-1,1,2,7}: wrap-around at '
         '8/16/32/64 bits, sign reinterpretation) through ordered_merge_left/right (10 forms), ordered_merge_inner (4 forms), '
         'merge_left/right/inner and get_index; an integer key column against a float32/float64 one holding halves (a cast '
-        'to the integer dtype truncates 1.5 to the key 1) in the same forms (quick 2 pairs, thorough 20).')
+        'to the integer dtype truncates 1.5 to the key 1) in the same forms (quick 2 pairs, thorough 20). '
+        'NAMED HDF5 COLUMNS (histories of calls on one Session whose key and numeric payload columns are HDF5-backed fields '
+        'addressed by dataset/dataframe/column name): every ordered pair of 9 call templates (get_index, join, merge_left/'
+        'right/inner, ordered_merge_left streamed / field / field-sink forms, ordered_merge_inner) x where the second call\'s '
+        'columns live (same column names in another dataframe / in another dataset; the same path overwritten in place, '
+        'cleared and rewritten, replaced by a same-named new field; other names: control) x {same, other length} x {same, '
+        'other content} (all 24 combinations for equal templates and pairs with get_index, 6 of 24 rotating for the others; '
+        'thorough: all), key dtypes int32/int64/beyond 2^53/S8 (changing under the name in 1 pair of 5), payload dtypes '
+        'equal in 3 pairs of 4 with other values; 200 (thorough 1500) random histories of 3-4 calls that return to the '
+        'first column after it was overwritten / replaced; column lengths K-1, K, K+1 around every new small literal K.')
 EXHAUSTIVE = {'quick': True, 'thorough': True}
 TRUSTED = ['numba code generation; numpy fancy indexing / boolean masks; MemoryField write / write_part (modelled as append)',
            'key columns: the model joins the key SYMBOLS, the real call their image under a strictly increasing map into the key '
@@ -2195,6 +2505,10 @@ TRUSTED = ['numba code generation; numpy fancy indexing / boolean masks; MemoryF
            'pandas.merge(how=left) = rows of the relational left join in order, pandas.merge(how=inner) = some permutation of '
            'the matching pairs — explicit premises of the merge_* theorems, exercised here on every generated key pair',
            'Python dict semantics in get_index (modelled as an association list, newest binding first)',
+           'named HDF5 columns: a Field argument is a handle to dataset/dataframe/column read at call time (Model/SessionWorld.v: '
+           'world = columns by full path, newest first); the harness writes every key column a call names before the call and '
+           'sends the call with holes at those argument positions, the model fills them from its world by full path; named '
+           'payload columns travel with the call; destination fields are fresh unnamed fields',
            'the chunk size of the streamed form is varied by wrapping the operations-module attributes; the production '
            'default 2^20 is run on the real code and compared with the model at a chunk size just beyond both inputs '
            '(equal by the chunking-independence theorems)']
@@ -2212,7 +2526,12 @@ ASSUMPTIONS = ['ordered_* forms: keys sorted ascending, uniqueness flags truthfu
                'fewer than 2^62 rows (INVALID_INDEX is not a row number); payload columns have the length of their key column']
 TECHNIQUE = ('Coq proof (faithful model of the kernels, Session plumbing and — reused from C03/C04 — the streamed generators '
              '= relational join + payload mapping) + exhaustive small-scope differential correspondence against the repository')
-LEVEL_TEXT = ('9 theorems in coq/Props/C19_flags.v about coq/Model/FlagForm.v (the type form of the uniqueness hints: a hint compared '
+LEVEL_TEXT = ('4 theorems in coq/Props/C19_world.v about coq/Model/SessionWorld.v (histories of calls on one Session whose arguments '
+              'are named HDF5 columns: the result of a call is the result of that call alone on the columns its handles point to '
+              'at that moment = the last column written to each FULL path; a same-named column of another dataframe / dataset is '
+              'another column; earlier steps that do not write to those paths leave the result as in a fresh Session: '
+              'session_world_history_call_alone / _lookup_last_write / _same_name_other_frame / _history_call_frame); '
+              '9 theorems in coq/Props/C19_flags.v about coq/Model/FlagForm.v (the type form of the uniqueness hints: a hint compared '
               'by value is its truth value in every form, so ordered_merge_left/right/inner with numpy-bool / integer hints ARE the '
               'calls with Python bools; the identity test `is False` is refuted — F-C19g, ordered_merge_inner as found); '
               '6 theorems in coq/Props/C19_typed.v about coq/Model/SessionMergeTyped.v (element types: every payload of a '
